@@ -310,7 +310,7 @@ def decide(pid, mod, ctx: Ctx, tier, seed, t0) -> int:
         print(f"[{pid}] reached: " + ", ".join(f"{k}={v}" for k, v in sorted(ctx.reach.items())))
     for key, vs in known_hit.items():
         print(f"KNOWN-FINDING: property={pid} {key} ({len(vs)} occurrences): "
-              f"{known[key].get('what', '')}")
+              f"{known[key].get('what', '')[:240]}")
     if unknown:
         shown = set()
         for v, rel in replay_paths:
